@@ -461,6 +461,9 @@ def contract_fbf():
     )
     c.frame_empty_on_raise = True
     c.no_param_writes = True
+    # "refuse to run mid-utterance and leave the utterance in progress undisturbed": when it raises, neither compute_chunk nor finalize of the
+    # computer has been called
+    c.ensures_raise = {"ValueError": [("utterance_in_progress_undisturbed", "finalized == 0 and fed == 0 and chunks == 0")]}
     return c
 
 
@@ -483,6 +486,8 @@ def to_case_c04(ob):
         for T in range(0, 3 * l2 + 3):
             cases.append(dict(b, ops=[["chunk", T, 1, "f8"], ["finalize"], ["chunk", 2 * l2 + 1, 2, "f8"], ["finalize"]]))
             cases.append(dict(b, ops=[["chunk", T, 1, "f8"], ["full", 3, 5, "f8"], ["finalize"], ["fbf", 2 * l2 + 1, 2, "f8", 3]]))
+            # frame_by_frame_calculation refused mid-utterance, after which the utterance goes on undisturbed
+            cases.append(dict(b, ops=[["chunk", T, 1, "f8"], ["fbf", l2 + 1, 6, "f8", 2], ["chunk", l2 + 1, 7, "f8"], ["finalize"]]))
     if getattr(ob, "verdict", None) != "refuted":
         # behind a candidate / model-less obligation: every small geometry; a first utterance that ends without a final frame, with one, too
         # short for any; then an utterance whose last chunk is a single sample after a frame-sized one (the end reflection then reaches
